@@ -1,0 +1,10 @@
+//go:build verif
+
+package fiber
+
+// VerifParseFlash decodes the flash cookie of c's request exactly as the request handler does for a request whose raw
+// header block mentions the cookie. Verification hook (build tag verif): requests dispatched in process have no raw
+// header block, and a flash cookie that contains bytes the HTTP parser refuses cannot be delivered any other way.
+func VerifParseFlash(c Ctx) {
+	c.Redirect().parseAndClearFlashMessages()
+}
